@@ -13,6 +13,7 @@ import (
 	"runtime"
 	"strings"
 	"sync"
+	"time"
 
 	"github.com/cgi-fr/jsonline/pkg/jsonline"
 )
@@ -42,14 +43,16 @@ func concProgram(t jsonline.Template, g int, iters int) string {
 		case 4:
 			src := jsonline.NewRow()
 			src.Set("a", g*1000+i)
-			src.Set("d", "2021-09-24T21:21:00Z")
+			// date-times as RFC 3339 strings, different in every goroutine and iteration
+			src.Set("d", time.Unix(1632518460+int64(g)*86400+int64(i)*61, 0).In(time.FixedZone("", (g%5-2)*3600)).Format(time.RFC3339))
 			r, err := t.CreateRow(src)
 			if err == nil {
 				sb.WriteString(r.DebugString())
 			}
 		case 5:
 			var out bytes.Buffer
-			in := fmt.Sprintf("{\"a\":%d}\n{\"a\":\"bad\"}\n{\"bin\":\"AQI=\",\"d\":%d}\n", g, 1632518460+i)
+			in := fmt.Sprintf("{\"a\":%d}\n{\"a\":\"bad\"}\n{\"bin\":\"AQI=\",\"d\":%d}\n{\"d\":\"%s\",\"pad\":\"%s\"}\n", g, 1632518460+i,
+				time.Unix(1600000000+int64(g)*3600+int64(i), 0).UTC().Format(time.RFC3339), strings.Repeat(string(rune('a'+g%26)), 200+g))
 			imp := t.GetImporter(strings.NewReader(in))
 			exp := t.GetExporter(&out)
 			_ = jsonline.NewStreamer(imp, exp).WithProcessor(jsonline.NoFailureProcessor).Stream()
@@ -85,11 +88,21 @@ func genC20(cw *caseWriter, seed uint64, tier string) {
 				cols = append(cols, colDesc{name: "c_" + f, format: f, ty: pick(r, tyNames)})
 			}
 		}
+		// the shared template is COLD when the goroutines start (nothing has used it yet); the sequential
+		// reference is computed afterwards on a second, identically built template
 		t := buildTemplate(cols)
 		n := 2 + r.intn(15)
-		seq := make([]string, n)
-		for g := 0; g < n; g++ {
-			seq[g] = concProgram(t, g, iters)
+		// importers that failed earlier in the process (reader error, over-long line), with the error fetched
+		// through GetRow after Import returned false and Import polled again: whatever they leave behind in
+		// the process must not couple later importers
+		for k := 0; k < 3; k++ {
+			fi := t.GetImporter(&scriptReader{evs: []readEv{{kind: "d", data: []byte("{\"a\":1}\n{\"a\"")}, {kind: "e"}}})
+			for fi.Import() {
+				_, _ = fi.GetRow()
+			}
+			_, _ = fi.GetRow()
+			_ = fi.Import()
+			_, _ = fi.ReadOne()
 		}
 		got := make([]string, n)
 		var wg sync.WaitGroup
@@ -104,6 +117,11 @@ func genC20(cw *caseWriter, seed uint64, tier string) {
 		}
 		close(start)
 		wg.Wait()
+		ref := buildTemplate(cols)
+		seq := make([]string, n)
+		for g := 0; g < n; g++ {
+			seq[g] = concProgram(ref, g, iters)
+		}
 		impl := "same"
 		for g := 0; g < n; g++ {
 			if got[g] != seq[g] {
